@@ -86,11 +86,10 @@ def mkClause (U : Universe) (P : Problem) (st : St) (k : Kind) (cands : List (Li
     match parentDeps U P st p with
     | some (reqs, _) =>
       let vars := cands.flatten
-      match vars.mapM st.solvOf with
-      | some solvs =>
-        if reqs.contains r && subsetB solvs (U.reqCands r) && subsetB (U.reqCands r) solvs
-        then some ⟨k, (p, false) :: vars.map (fun v => (v, true))⟩ else none
-      | none => none
+      let solvs := vars.filterMap st.solvOf
+      if vars.all (fun v => (st.solvOf v).isSome) && reqs.contains r &&
+         subsetB solvs (U.reqCands r) && subsetB (U.reqCands r) solvs
+      then some ⟨k, (p, false) :: vars.map (fun v => (v, true))⟩ else none
     | none => none
   | .constrains p c vs =>
     match parentDeps U P st p, st.solvOf c with
